@@ -510,7 +510,7 @@ func main() {
 		scs = append(scs, scenario(cfg{Reg: reg, Depth: 2}))
 	}
 	scs = append(scs, scenario(cfg{Reg: "205obs", Depth: ev.Pick(r, 2, 3), Two: true}))
-	scs = append(scs, scenario(cfg{Reg: "205obs", Depth: ev.Pick(r, 3, 5), Two: true, CancelInCb: true}))
+	scs = append(scs, scenario(cfg{Reg: "205obs", Depth: ev.Pick(r, 3, 4), Two: true, CancelInCb: true}))
 	scs = append(scs, scenario(cfg{Reg: "205obs", Depth: ev.Pick(r, 3, 4), CancelInCb: true}))
 	scs = append(scs, scenario(cfg{Reg: "205obs", Depth: ev.Pick(r, 3, 4), Two: true, CancelInCb: true, TCP: true}))
 	scs = append(scs, scenario(cfg{Reg: "205obs", Depth: ev.Pick(r, 2, 3), DeregFails: true}))
